@@ -562,14 +562,16 @@ CHECKS.update({
 
 CHECKS.update({
     "C04": {"family": "floats", "level": "exploration",
-            "rule": "literals: exact halfway points between adjacent float64s (random, near powers of two, subnormal, near max) and their "
+            "rule": "literals: one witness per abstract class of the TLA+ scanner model FloatScan (digits kept x truncation x mantissa against "
+                    "2^52/2^53/2^63/10^15 x exponent against every bound the code tests x exponent clamp x magnitude against the overflow/"
+                    "underflow screens; about 3000 classes, emitted by TLC); exact halfway points between adjacent float64s (random, near powers of two, subnormal, near max) and their "
                     "neighbours (last digit +-1, appended digits) in several spellings; overflow/underflow thresholds; mantissa lengths "
                     "1..1100 x exponent windows; the deciding digit placed at 19, 20, 767..769, 799..802, 900 significant digits; zeros of "
                     "every spelling and length with both signs; digit runs 1..24 in every part x next byte; every row of the 696-row "
                     "power-of-ten table with short, 19-digit and truncated mantissas plus hook-guided search for the wide-multiplication "
                     "branch; >800-digit mantissas; random literals; each followed by a non-continuation byte; through ReadFloat64, "
                     "DecodeFloat64, ReadValue and strconv.ParseFloat; distinct = distinct input",
-            "technique": "TLA+ exact-arithmetic rounding relation (limb bignums; R1 on a scaled-down format) evaluated by TLC on recorded conversions (R3); path hook for coverage",
+            "technique": "TLA+ exact-arithmetic rounding relation (limb bignums; R1 on a scaled-down format) evaluated by TLC on recorded conversions (R3); implementation-shaped scanner/path model FloatScan (R1 faithfulness, R2 class witnesses, hooks H4/H1 for conformance notes and coverage)",
             "level_text": "A sampled infinite domain with an exact oracle: 'nearest, ties to even, sign of zero, overflow threshold, end offset' is a "
                           "TLA+ relation over unbounded naturals which TLC evaluates for every recorded result (and for strconv's). The relation's "
                           "algebra is model-checked exhaustively on a 4-bit/3-bit format. No exhaustiveness is claimed for binary64.",
